@@ -105,7 +105,8 @@ fn strip_generics(p: &str) -> String {
     let mut out = String::with_capacity(p.len());
     let mut i = 0;
     while i < b.len() {
-        if i + 2 < b.len() && b[i] == ':' && b[i + 1] == ':' && b[i + 2] == '<' {
+        let is_impl = i + 7 < b.len() && b[i + 3..i + 8].iter().collect::<String>() == "impl ";
+        if i + 2 < b.len() && b[i] == ':' && b[i + 1] == ':' && b[i + 2] == '<' && !is_impl {
             let mut depth = 0i32;
             let mut j = i + 2;
             while j < b.len() {
@@ -652,7 +653,14 @@ impl<'tcx> Cx<'tcx> {
                                 match rv {
                                     Rvalue::Use(o, ..) => ops.push(o),
                                     Rvalue::Cast(_, o, _) => ops.push(o),
-                                    Rvalue::Aggregate(_, fs) => {
+                                    Rvalue::Aggregate(kind, fs) => {
+                                        if let AggregateKind::Adt(adid, vi, _, _, _) = &**kind {
+                                            let def = tcx.adt_def(*adid);
+                                            consts.push(obj(vec![
+                                                ("agg", s(self.path(*adid))),
+                                                ("variant", s(def.variant(*vi).name.to_string())),
+                                            ]));
+                                        }
                                         for o in fs.iter() {
                                             ops.push(o)
                                         }
